@@ -295,7 +295,9 @@ class SimConn:
 
     def _queue_s2c(self, item, now):
         gap = self.net.latency(self, "s2c")
-        t = max(self._s2c_last + 1e-6, now + gap)
+        # (loop flavour "coalesce": bytes and the end of the stream may sit in the socket
+        # buffer together, i.e. become due at the same instant)
+        t = max(self._s2c_last + (0.0 if self.net.coalesce_eof else 1e-6), now + gap)
         self._s2c_last = t
         self._s2c.append(item)
         self.world.loop.call_at(t, self._deliver_s2c, context=self._client_ctx())
@@ -354,6 +356,14 @@ class SimConn:
             for tag in tags:
                 w.on_client_response(self, tag)
             self.protocol.data_received(data)
+            if self.net.coalesce_eof and self._rx_due and self._rx_due[0][0] == "eof" \
+                    and not self.client_lost and not self.transport._paused:
+                # loop flavour knob: transports that drain the socket in one callback
+                # (sslproto, proactor and uvloop style) report the end of the stream
+                # right after the last bytes, before any task had a chance to run
+                w.probe("eof_coalesced_with_data")
+                self._rx_pump()
+                return
         else:
             self._rx_due.popleft()
             if kind == "eof":
@@ -385,6 +395,7 @@ class SimNet:
         self.connect_refused = set()  # (host, port)
         self.blackholed = set()
         self.const_latency = None
+        self.coalesce_eof = False
 
     def ctx_for(self, owner):
         ctx = self._ctx.get(owner)
